@@ -142,7 +142,11 @@ func ruleBoundedQueue() check.Rule {
 				case capExpr == nil:
 					c.Violation(key, sc.Lit.Pos(), "the hand-off channel is unbuffered/has no capacity operand: the configured size is ignored")
 				default:
-					id, _ := ast.Unparen(capExpr).(*ast.Ident)
+					// the size parameter itself, or a field of an options parameter (opts.bufferSize)
+					id, _ := rootIdent(capExpr)
+					if _, isCall := ast.Unparen(capExpr).(*ast.CallExpr); isCall {
+						id = nil
+					}
 					v, _ := objOf(info, id).(*types.Var)
 					isParam := false
 					if v != nil && sc.Decl != nil {
